@@ -13,6 +13,11 @@ PYTHONPATH=$AIUTI_REPO; imports nothing from the harness).
       LOGFILE (O_APPEND, unbuffered) before the next line runs, so the parent knows how far the
       victim got.  If the program ends before N line events: logs 'END <events>' and exits 0.
 
+  forkhold LOCK ROUNDS
+      C02 F-run: ROUNDS times acquire LOCK, os.fork() a child that exits at once (it only inherits
+      the descriptor), wait for it, check that a second FileLock object of this process is still
+      refused (collision otherwise), release, check that the lock is obtainable again.
+
   hold LOCK READY GO [blocking]
       C13 contender: acquire LOCK (blocking), create the file READY, wait until the file GO
       exists, release, exit 0.  With a 4th argument 'nb': try non-blocking once, report
@@ -73,6 +78,33 @@ def contend(lock, marker, rounds, flavour):
                     section()
                 finally:
                     lk.release()
+            done += 1
+        except Exception:
+            err += 1
+    print(json.dumps(dict(completed=done, collisions=coll, errors=err)))
+
+
+def forkhold(lock, rounds):
+    from aiuti.filelock import FileLock
+    done = coll = err = 0
+    lk, other = FileLock(lock), FileLock(lock)
+    for _ in range(rounds):
+        try:
+            if not lk.acquire():
+                err += 1
+                continue
+            pid = os.fork()
+            if pid == 0:
+                os._exit(0)
+            os.waitpid(pid, 0)
+            if other.acquire(False):            # the holder forked: it must still be the holder
+                coll += 1
+                other.release()
+            lk.release()
+            if other.acquire(False):
+                other.release()
+            else:
+                err += 1
             done += 1
         except Exception:
             err += 1
@@ -255,3 +287,5 @@ if __name__ == '__main__':
         crash(sys.argv[2], sys.argv[3], int(sys.argv[4]), sys.argv[5], *(sys.argv[6:7]))
     elif cmd == 'hold':
         hold(*sys.argv[2:])
+    elif cmd == 'forkhold':
+        forkhold(sys.argv[2], int(sys.argv[3]))
